@@ -381,9 +381,53 @@ LABELS = ["foo", "bar:baz", "a/b", "x.y", "l_1", "if", "loop:for", "meta/topic/f
           "a...b", "x…y", "f(x)", "a+b", "a-b", "_", "paroxython:x",
           "été", "λ", "变量", "e\u0301t", "naïve/taxon", "a…b:c", "\u00b5s"]
 NON_ASCII_CODE = ["s = 'été\u00a0x'", "z = 'a\u2028b'  # é", "λ = 1", "变量 = λ + 1"]
-LINEBREAK_LIKE = ["s = 'a\x0cb'", "t = \"x\x0by\"", "u = 'p\x1cq'", "v = 'm\x1dn\x1eo'", "w = 'c\rd'", "k = '\x0c'  # ff"]
+LINEBREAK_LIKE = ["s = 'a\x0cb'", "t = \"x\x0by\"", "u = 'p\x1cq'", "v = 'm\x1dn\x1eo'", "w = '''c\rd'''", "k = '\x0c'  # ff"]
 CODE = LINEBREAK_LIKE[:5] + NON_ASCII_CODE + ["x = 1", "y = x + 1", "print(x)", "for i in range(3):", "    pass", "if x:", "    y = 2", "", "def f(a):",
         "    return a", "z = [1, 2]", "while x: x -= 1", "s = '# not a hint'", "t = \"...\""]
+
+
+# C12 quantifies over VALID programs: the code lines of the generated programs are made of whole statements
+# (a compound statement comes with its body), so that a parse-before-cleaning repair (F48) leaves them alone.
+SIMPLE = [[c] for c in LINEBREAK_LIKE + NON_ASCII_CODE + ["x = 1", "y = x + 1", "print(x)", "z = [1, 2]", "while x: x -= 1",
+                                                           "s = '# not a hint'", "t = \"...\""]]
+BLOCKS = SIMPLE + [
+    ["for i in range(3):", "    pass"],
+    ["if x:", "    y = 2"],
+    ["def f(a):", "    return a"],
+    ["for i in range(3):", "    if x:", "        y = 2"],
+    ["if x:", "    y = 2", "else:", "    y = 3"],
+    ["class A:", "    def m(self):", "        return 1"],
+    ["while x:", "    x -= 1", "", "    y = 2"],
+    ["def f(a):", "", "    return a"],
+    ["try:", "    x = 1", "except Exception:", "    pass"],
+    ["with open(x) as g:", "    pass"],
+]
+
+
+def assert_valid(lines, what):
+    """The hint-free base of a generated program must be a valid program (guard against regressions of the generators)."""
+    import ast
+    try:
+        ast.parse("\n".join(lines) + "\n")
+    except SyntaxError as e:  # a generator bug, not a finding
+        raise AssertionError(f"{what}: the generated base is not a valid program ({e}): {lines!r}")
+    return lines
+
+
+def gen_base(rng, lo, hi, blocks=None):
+    """The code lines of a VALID program of about lo..hi lines: whole statements (compound ones with their bodies,
+    so that hints can sit on `def` / `if` / `for` / `while` / `class` header lines), sometimes a blank line between two."""
+    blocks = BLOCKS if blocks is None else blocks
+    n = rng.randint(lo, hi)
+    out = []
+    while len(out) < n:
+        room = n - len(out)
+        fit = [b for b in blocks if len(b) <= room] or [b for b in blocks if len(b) == 1]
+        b = rng.choice(fit if rng.random() < 0.8 else [x for x in fit if len(x) > 1] or fit)
+        if out and rng.random() < 0.12 and room > len(b):
+            out.append("")
+        out += b
+    return assert_valid(out, "gen_base")
 
 
 def gen_forest(rng, lo, hi, depth, main=None):
@@ -580,27 +624,18 @@ def stream_decorated(ctx, impl, drv, judge, real_programs):
     for k in range(n):
         rng = ctx.rng
         if real_programs and rng.random() < 0.35:
-            base = rng.choice(real_programs)
-            if len(base) > 12:
-                a = rng.randrange(len(base) - 8)
-                base = base[a:a + rng.randint(3, 12)]
-                while base and base[0].strip() == "" or base and base[0][:1] in " \t":
-                    base = base[1:]
-                while base and base[-1].strip() == "":
-                    base = base[:-1]
+            base = real_slice(rng, rng.choice(real_programs))  # whole top-level statements of a real program
             if not base:
                 continue
             stream = "decorated-real"
-        else:
-            base = [rng.choice(CODE) for _ in range(rng.randint(1, 6))]
-            # keep the ends non blank and the first line not indented, most of the time
-            if rng.random() < 0.9:
-                base = [b for b in base]
-                if base[0].strip() == "" or base[0][:1] == " ":
-                    base[0] = "x = 1"
-                if base[-1].strip() == "":
-                    base[-1] = "y = 2"
+        elif rng.random() < 0.9:
+            base = gen_base(rng, 1, 6)
             stream = "decorated"
+        else:
+            # arbitrary line sequences (first line indented or blank, bodies missing): inside the statement of
+            # C12_roundtrip, outside "valid programs"; get_program only (no cleaning, no parsing involved)
+            base = [rng.choice(CODE) for _ in range(rng.randint(1, 6))]
+            stream = "decorated-raw-lines"
         defect = rng.choice([None] * 7 + ["unbalanced", "unbalanced", "tie"])
         layout = gen_decorated(rng, base, defect=defect)
         r = check_decorated(ctx, impl, drv, judge, stream, layout)
@@ -618,7 +653,7 @@ def stream_blank_ends(ctx, impl, drv, judge):
     blank = {"code": "", "pad": 1, "hints": []}
     for _ in range(n):
         rng = ctx.rng
-        base = [rng.choice([c for c in CODE if c.strip() and c[0] != " "]) for _ in range(rng.randint(1, 3))]
+        base = [l for l in gen_base(rng, 1, 3) if l.strip()]
         inner = [l for l in gen_decorated(rng, base, labels=LABELS[:6]) if not (l.get("code") == "" and not l.get("hints"))]
         lead, trail = rng.choice([0, 1, 2]), rng.choice([0, 0, 1, 2])
         outer_before = [{"isolated": "outer", "indent": 0}] if rng.random() < 0.3 else []
@@ -756,9 +791,13 @@ def stream_unicode_linebreaks(ctx, impl, drv, judge):
     for _ in range(n):
         rng = ctx.rng
         ch = rng.choice(["\x85", "\u2028", "\u2029", "\x0c", "\x1c", "\x1e", "\x0b"])
-        base = [rng.choice(CODE[9:]) for _ in range(rng.randint(2, 5))]
-        k = rng.randrange(len(base))
-        base[k] = "q = 'a" + ch + "b'" if rng.random() < 0.7 else base[k] + "  # c" + ch + "d"
+        base = gen_base(rng, 2, 5, blocks=BLOCKS[len(LINEBREAK_LIKE) + len(NON_ASCII_CODE):])
+        k = rng.choice([i for i, l in enumerate(base) if l.strip()])
+        if rng.random() < 0.7 and not base[k].rstrip().endswith(":"):  # a simple statement, at its indentation
+            base[k] = base[k][:len(base[k]) - len(base[k].lstrip())] + "q = 'a" + ch + "b'"
+        else:
+            base[k] = base[k] + "  # c" + ch + "d"
+        assert_valid(base, "linebreak-like")
         layout = gen_decorated(rng, base, labels=LABELS[:8])
         spec = drv.call("c12.spec_decorate", lines=layout)
         src = spec["src"]
@@ -781,8 +820,10 @@ def stream_unicode_linebreaks(ctx, impl, drv, judge):
             }, per_sig=2)
 
 
-FILE_CODE = ["x = 1", "y = x + 1", "print(x, y)", "for i in range(3):", "    y = y + i", "z = [1, 2]", "if x:", "    z = 3",
-             "def f(a):", "    return a", "t = f(x) + f(y)"]
+FILE_BLOCKS = [["x = 1"], ["y = x + 1"], ["print(x, y)"], ["z = [1, 2]"], ["t = f(x) + f(y)"],
+               ["for i in range(3):", "    y = y + i"], ["if x:", "    z = 3"], ["def f(a):", "    return a"],
+               ["while x:", "    x -= 1"], ["class A:", "    n = 0"], ["if x:", "    z = 3", "else:", "    z = 4"],
+               ["for i in range(3):", "    if i:", "        y = i"], ["def g(a):", "    b = a", "    return b"]]
 
 
 def gen_hinted_file(rng):
@@ -821,12 +862,8 @@ def gen_hinted_file(rng):
     if rng.random() < 0.3:
         out.append(noise(""))
     # the code, with trailing hints, ordinary comments, blank lines, isolated hints in between
-    k = rng.randrange(0, len(FILE_CODE) - 3)
-    code = FILE_CODE[k:k + rng.randint(2, 5)]
-    while code and code[0][:1] == " ":
-        code = code[1:]
-    if not code:
-        code = ["x = 1"]
+    # whole statements: a valid program, with hints on any line (headers of compound statements included)
+    code = [l for l in gen_base(rng, 2, 6, blocks=FILE_BLOCKS) if l.strip()]
     for j, c in enumerate(code):
         hints = []
         if rng.random() < 0.45:
@@ -842,6 +879,9 @@ def gen_hinted_file(rng):
             out.append(iso(labels[1]))
     if rng.random() < 0.4:
         out.append(iso(rng.choice(labels[:2])))  # alone on the last line
+    # the file without its hints is a valid program, as it is (`none`) and without its comments and blank lines (`full`)
+    assert_valid([l["code"] for _, l in out if "code" in l], "gen_hinted_file")
+    assert_valid([l["code"] for kind, l in out if "code" in l and kind == "kept"], "gen_hinted_file(kept)")
     return out
 
 
@@ -1279,6 +1319,29 @@ def stream_end_to_end(ctx, impl, drv, judge, real_programs):
                         "model_labels_hinted": [x for x in m["labels"] if x[0] in hinted][:6]})
     ctx.dist("end-to-end:get_bindings-cases", nbind)
     ctx.count("get_bindings", None, n=nbind)
+
+
+def real_slice(rng, lines, max_lines=12):
+    """Consecutive top-level statements (with the comments and blank lines between them) of a real program."""
+    import ast
+    if len(lines) <= max_lines:
+        return assert_valid(list(lines), "real_slice")
+    try:
+        body = ast.parse("\n".join(lines) + "\n").body
+    except SyntaxError:
+        return None
+    starts = [min([st.lineno] + [d.lineno for d in getattr(st, "decorator_list", [])]) for st in body]
+    ends = [st.end_lineno for st in body]
+    i = rng.randrange(len(body))
+    j = i
+    while j + 1 < len(body) and ends[j + 1] - starts[i] + 1 <= max_lines and rng.random() < 0.7:
+        j += 1
+    if ends[j] - starts[i] + 1 > max_lines:
+        return None
+    out = list(lines[starts[i] - 1:ends[j]])
+    while out and out[-1].strip() == "":
+        out.pop()
+    return assert_valid(out, "real_slice") if out else None
 
 
 def load_real_programs(impl):
